@@ -322,12 +322,75 @@ def run_async_delivery(rep, facts):
     rep.floor("R2.8", "async delivery rules", n, 4)
 
 
+def run_errors_from_headers_only(rep, facts):
+    """R2.9: "for every well-formed sequence of input-stream records ... regardless of ... read chunking, of whether data is delivered into caller
+    buffers of any size or into the internal buffer, and of when the caller consumes or compacts that buffer": whether stream::Parser::parse fails
+    may depend on what the records say, never on the schedule. Every error parse() can return is therefore produced where a record header is
+    decoded and dispatched (those rows are decided by R2.1 / R2.4 and the tables of C03 / C04 / C11); the rest of parse() -- the loop, the
+    payload step, any helper it calls that does not dispatch on a header -- sees only cursors, counters and buffer sizes, and constructs no error."""
+    from facts import norm
+    rep.rule("R2.9", "stream::Parser::parse fails only where a record header is dispatched: no other function it runs (the loop itself, the payload step, helpers) constructs "
+                     "a parser error or an Err result -- buffer occupancy, destination size and call schedule never decide success")
+    entry = facts.body("parser::stream::Parser::parse")
+    dsites = set(b.npath for b in dispatch.find_sites(facts).values())
+    seen = {}
+    work = [entry]
+    while work:
+        b = work.pop()
+        if b.npath in seen:
+            continue
+        seen[b.npath] = b
+        for blk in b.blocks:
+            t = blk["t"]
+            if blk.get("cleanup") or t["k"] != "call" or "path" not in t["func"]:
+                continue
+            callee = norm(t["func"]["path"])
+            if not (callee.startswith("parser::") or callee.startswith("<parser::")) or callee.startswith("parser::request::"):
+                continue
+            for cb in facts.by_npath.get(callee, []):
+                if not cb.promoted:
+                    work.append(cb)
+        for cb in facts.bodies:
+            if cb.npath.startswith(b.npath + "::{closure") and not cb.promoted:
+                work.append(cb)
+    n = 0
+    for np_, b in sorted(seen.items()):
+        if np_.split("::{closure")[0] in dsites:
+            continue
+        n += 1
+        bad = None
+        for bi, blk in enumerate(b.blocks):
+            if blk.get("cleanup"):
+                continue
+            for st in blk["st"]:
+                if st["k"] != "assign" or (st.get("sp") or {}).get("n"):
+                    continue
+                rv = st["rv"]
+                if rv["k"] == "agg" and rv.get("ak") == "adt":
+                    a = norm(rv["adt"])
+                    if a == "parser::Error" or (a == "std::result::Result" and rv.get("vi") == 1 and "parser::Error" in b.locals[st["place"]["l"]]["ty"]["s"]):
+                        bad = bad or st
+                elif rv["k"] == "use" and "const" in rv["op"] and "parser::Error" in str(rv["op"].get("ty", "")) and "p" not in st["place"]:
+                    tys = b.locals[st["place"]["l"]]["ty"]["s"]
+                    if tys.startswith("parser::Error") or tys.startswith("std::result::Result<"):
+                        bad = bad or st
+        key = "%s/no-error-constructed" % np_.replace("parser::stream::", "")
+        if bad is not None:
+            sp = bad.get("sp") or {}
+            rep.violation("R2.9", key, "a function the stream parser runs outside the header dispatch constructs a parser error: parse() can fail on a well-formed record sequence "
+                          "depending on buffer occupancy / destination size / call order", "%s:%s" % (sp.get("f"), sp.get("l")))
+        else:
+            rep.ok("R2.9", key, "constructs no parser error", b.loc())
+    rep.floor("R2.9", "non-dispatch functions reachable from stream::Parser::parse", n, 2)
+
+
 def main(rep, tier):
     f = F.load(("async", "http"))
     rep.configs.append({"features": "async,http", "profile": "debug", "bodies": len(f.bodies)})
     check.guard(rep, "R2", run, f)
     check.guard(rep, "R2.7", run_buffer_geometry, f)
     check.guard(rep, "R2.8", run_async_delivery, f)
+    check.guard(rep, "R2.9", run_errors_from_headers_only, f)
     rep.floor("R2", "rule instances", len([i for i in rep.instances if i["status"] == "ok"]), 10)
     return rep.finish(
         "Necessary structural conditions of exact delivery: where the delivering state is entered and left, that bytes move only in that "
